@@ -1,0 +1,86 @@
+//go:build verif
+
+// Contracts for package main, checked by /verif/gvc (comment-only file: it
+// declares nothing and is excluded from ordinary builds by the tag).
+//
+// Vocabulary (ghost state disk/outs, Parses, fmtNode, impProc, ...) is defined
+// in /verif/spec/effects.spec; trusted contracts of dependencies are in
+// /verif/trusted/*.tc.
+
+package main
+
+//@ func newArgParser() (parser, opts)
+//@   trusted go-flags builds the option table by reflection over struct tags; not modelled
+//@   ensures parser != nil && opts != nil
+
+//@ func newPatchRunner
+//@   inline
+
+//@ func loadPatches(fset, opts, stdin) (progs, err)
+//@   requires opts != nil
+//@   assigns nothing
+//@   ensures err == nil ==> wfProgs(progs)
+
+//@ func checkGeneratedCode(f) (r)
+//@   requires f != nil
+//@   requires f.Doc != nil ==> (forall i int :: 0 <= i && i < len(f.Doc.List) ==> f.Doc.List[i] != nil)
+//@   ensures [C18] generated-if: r ==> (astIsGenerated(f) || (f.Doc != nil && exists i int :: 0 <= i && i < len(f.Doc.List) && strContains(f.Doc.List[i].Text, "@generated")))
+//@   ensures [C18] generated-only-if: !r ==> (!astIsGenerated(f) && (f.Doc == nil || forall i int :: 0 <= i && i < len(f.Doc.List) ==> !strContains(f.Doc.List[i].Text, "@generated")))
+//@   assigns nothing
+//@   loop 0
+//@     invariant forall i int :: 0 <= i && i < #k ==> !strContains(f.Doc.List[i].Text, "@generated")
+
+//@ func (cmd *mainCmd) printComments(filename, comments)
+//@   requires cmd.Stderr != nil
+//@   at effect stream-write assert [C12] stderr-only: arg0 == cmd.Stderr
+//@   assigns outs
+//@   ensures [C12] forall w Iface :: w != cmd.Stderr ==> outs[w] == old(outs)[w]
+//@   loop 0
+//@     invariant forall w Iface :: w != cmd.Stderr ==> outs[w] == old(outs)[w]
+
+//@ func (cmd *mainCmd) preview(filename, originalContent, modifiedContent, comments) (err)
+//@   requires cmd.Stderr != nil && cmd.Stdout != nil
+//@   assigns outs
+//@   ensures [C12] forall w Iface :: w != cmd.Stderr && w != cmd.Stdout ==> outs[w] == old(outs)[w]
+
+//@ func (r *patchRunner) Apply(filename, f) (fout, comments, matched)
+//@   requires f != nil
+//@   requires wfProgs(r.patches)
+//@   assigns r.errors, elems(r.errors), group(ast)
+//@   ensures [C06,C08,C09] matched-has-file: matched ==> fout != nil
+//@   ensures [C06,C09] only-errors-grow: len(r.errors) >= old(len(r.errors))
+//@   loop 0
+//@     invariant matched ==> fout != nil
+//@     invariant len(r.errors) >= old(len(r.errors))
+//@   loop 1
+//@     invariant matched ==> fout != nil
+//@     invariant len(r.errors) >= old(len(r.errors))
+
+//@ func findFiles(cwd, patterns) (files, err)
+//@   assigns nothing
+
+//@ func (cmd *mainCmd) Run(args) (err)
+//@   requires cmd.Stdout != nil && cmd.Stderr != nil
+//@   at effect disk-write assert [C12] dry-run-never-writes: !opts.Diff && !opts.Print
+//@   at effect disk-write assert [C06] only-matched-files-written: ok
+//@   at effect disk-write assert [C07] written-bytes-parse: Parses(string(arg1))
+//@   at effect disk-write assert [C12,C14,C16] written-bytes-are-the-pipeline-output: arg0 == filename && string(arg1) == ite(opts.SkipImportProcessing, fmtNode(f), impProc(filename, fmtNode(f)))
+//@   at effect disk-write assert [C18] generated-skipped: !(opts.SkipGenerated && ret("main.checkGeneratedCode", 0))
+//@   at call io.Writer.Write assert [C06] echo-original: !ok ==> (opts.Print && arg0 == cmd.Stdout && string(arg1) == disk[filename])
+//@   at call io.Writer.Write assert [C12,C14] print-pipeline-output: ok ==> (opts.Print && !opts.Diff && arg0 == cmd.Stdout && string(arg1) == ite(opts.SkipImportProcessing, fmtNode(f), impProc(filename, fmtNode(f))))
+//@   at call io.Writer.Write assert [C07] printed-bytes-parse: ok ==> Parses(string(arg1))
+//@   at call io.Writer.Write assert [C18] generated-skipped: !(opts.SkipGenerated && ret("main.checkGeneratedCode", 0))
+//@   at call (*main.mainCmd).preview assert [C06] only-matched: ok
+//@   at call (*main.mainCmd).preview assert [C12,C14] diff-of-pipeline-output: opts.Diff && string(arg2) == disk[filename] && string(arg3) == ite(opts.SkipImportProcessing, fmtNode(f), impProc(filename, fmtNode(f)))
+//@   at call (*main.mainCmd).preview assert [C07] diffed-bytes-parse: Parses(string(arg3))
+//@   at call (*main.mainCmd).preview assert [C18] generated-skipped: !(opts.SkipGenerated && ret("main.checkGeneratedCode", 0))
+//@   at call (*main.mainCmd).printComments assert [C06,C12] only-matched: ok
+//@   at call (*main.patchRunner).Apply assert [C18] generated-skipped: !(opts.SkipGenerated && ret("main.checkGeneratedCode", 0))
+//@   loop 0
+//@     invariant [C12] dry-run-frame: (opts.Diff || opts.Print) ==> disk == old(disk)
+
+//@ func funcval:github.com/uber-go/gopatch.mainCmd.Getwd() (dir, err)
+//@   assigns nothing
+
+//@ func cleanupFilePos(tfile, cl, comments)
+//@   assigns group(ast)
